@@ -352,6 +352,53 @@ def shrink(plug: Plugin, case, pred, budget=400):
     return cur
 
 
+# ------------------------------------------------------------------ extraction cross-check
+def coq_val(v) -> str:
+    """A python val as a Gallina term of type val."""
+    from .codec import Some, Wild
+
+    if v is None:
+        return "VNone"
+    if isinstance(v, bool):
+        return f"(VInt ({int(v)})%Z)"
+    if isinstance(v, int):
+        return f"(VInt ({v})%Z)"
+    if isinstance(v, str):
+        return "(VStr [" + "; ".join(str(ord(c)) for c in v) + "]%N)"
+    if isinstance(v, (list, tuple)):
+        return "(VList [" + "; ".join(coq_val(x) for x in v) + "])"
+    if isinstance(v, Some):
+        return f"(VSome {coq_val(v.v)})"
+    if isinstance(v, Wild):
+        return "(VStr [1114112]%N)"
+    raise TypeError(type(v))
+
+
+def extraction_cross_check(plug: Plugin, triples):
+    """The extracted OCaml program and the glue of the driver are trusted; this narrows that trust: for a sample of the evaluated
+    cases the dispatcher is evaluated INSIDE Coq (vm_compute on the Gallina definition) and must give the value the OCaml driver
+    printed.  Returns (ok, detail)."""
+    d = os.path.join(ROOT, "_build", "xcheck")
+    os.makedirs(d, exist_ok=True)
+    f = os.path.join(d, f"XCheck_{plug.pid}.v")
+    lines = ["(* GENERATED: the OCaml driver's results on these cases, re-computed by the Coq VM *)",
+             "From Coq Require Import List ZArith NArith.", "Import ListNotations.", "From Curies.model Require Import Val Dispatch.", ""]
+    for i, (c, o, r) in enumerate(triples):
+        lines.append(f"Example x{i} : dispatch ({plug.entry})%Z ({plug.prop})%Z\n  {coq_val(c)}\n  {coq_val(o)}\n  = {coq_val(r)}.")
+        lines.append("Proof. vm_compute. reflexivity. Qed.")
+    open(f, "w").write("\n".join(lines) + "\n")
+    t0 = time.time()
+    r = sh(f"ulimit -s unlimited 2>/dev/null; timeout 900 coqc -Q {COQ} Curies -Q {d} XCheck {f}")
+    for ext in (".vo", ".vok", ".vos", ".glob"):
+        try:
+            os.unlink(f[:-2] + ext)
+        except OSError:
+            pass
+    if r.returncode != 0:
+        return False, (r.stderr or r.stdout)[-800:]
+    return True, f"{len(triples)} cases, {time.time() - t0:.1f}s"
+
+
 # ------------------------------------------------------------------ the check
 def write_replay(pid, tag, payload):
     d = os.path.join(ROOT, "replays")
@@ -410,6 +457,8 @@ def run_check(plug: Plugin, tier: str, seed: int, level_note=""):
     evaluations = 0
     samples = []
     first_case = None
+    xsample = []          # (case, obs, driver result) of some evaluated cases, for the extraction cross-check
+    xevery = 1
     t_impl = t_model = 0.0
     # the cases are processed in bounded batches (memory stays flat however deep the tier is)
     stream = itertools.chain(cases, plug.generate(rng, n))
@@ -440,6 +489,10 @@ def run_check(plug: Plugin, tier: str, seed: int, level_note=""):
                 invalid += 1
                 continue
             evaluations += 1
+            if len(xsample) < 12 or (evaluations % xevery == 0 and len(xsample) < 40):
+                xsample.append((c, o, r))
+                if len(xsample) == 12:
+                    xevery = max(1, total_cases // 28)
             plug.stats(c, o, stats)
             nt = plug.nontrivial(c, o)
             if nt:
@@ -487,6 +540,12 @@ def run_check(plug: Plugin, tier: str, seed: int, level_note=""):
                   "axioms": m_ax.group(1).strip() if m_ax else None}
         if chk.returncode != 0 or coqchk["axioms"] != "<none>":
             obl["broken"].append(f"coqchk on props/{pid}: rc={chk.returncode} axioms={coqchk['axioms']} " + out[-800:])
+    xcheck = None
+    if (tier == "thorough" or os.environ.get("VERIF_XCHECK") == "1") and xsample and os.environ.get("VERIF_XCHECK") != "0":
+        ok, detail = extraction_cross_check(plug, xsample)
+        xcheck = {"cases": len(xsample), "ok": ok, "detail": detail}
+        if not ok:
+            obl["broken"].append("extraction cross-check (Coq VM vs extracted OCaml driver): " + detail)
     # failing inputs on the implementation
     seen_known = set()
     reported = 0
@@ -564,6 +623,7 @@ def run_check(plug: Plugin, tier: str, seed: int, level_note=""):
             "trusted_base": TRUSTED_BASE,
             "theorems": obl["theorems"],
             "coqchk": coqchk,
+            "extraction_cross_check": xcheck,
             "broken_obligations": obl["broken"],
             "evaluations": evaluations,
             "distinct_nontrivial": len(nontriv),
